@@ -125,6 +125,10 @@ func (c02) Plan(tier string, seed int64) []core.Scenario {
 	for i := 0; i < 4; i++ {
 		out = append(out, core.Scenario{Kind: "stale-reverse-answer", Seed: seed*999983 + 5000 + int64(i), N: map[string]int{"fk": i % 2, "old": 1 + i%3, "noping": i / 2}, S: map[string]string{}})
 	}
+	// every call gets an outcome of its own also when its context is already done while the link is down
+	for i := 0; i < 2; i++ {
+		out = append(out, core.Scenario{Kind: "done-ctx-outage", Seed: seed*999983 + 6000 + int64(i), N: map[string]int{"fk": i % 2, "noise": 1 + i, "n": 12}, S: map[string]string{}})
+	}
 	// single-stall pair enumeration on a healthy connection (calls judged here, streams in C07)
 	out = append(out, planStallPairs(tier, seed, "calls")...)
 	return out
@@ -149,6 +153,8 @@ func (p c02) Run(sc core.Scenario) core.Result {
 		runStallPair(sc, r)
 	case "stale-reverse-answer":
 		c16{}.staleReverseAnswer(sc, r)
+	case "done-ctx-outage":
+		runDoneCtxOutage(sc, r)
 	}
 	return r.Result()
 }
